@@ -14,7 +14,7 @@ import warnings
 import numpy as np
 
 from vlib import cats, gen
-from vlib.core import HELD, VIOLATED, Check, Scratch, result
+from vlib.core import HELD, VIOLATED, Check, Scratch, result, case_bits
 
 BASE = np.array([0.1, 0.3, 0.55, 0.8, 1.0])
 
@@ -203,7 +203,7 @@ class C07(Check):
                     return hs[int(rng.integers(len(hs)))]
 
             hist = Pick()
-            mix_workers = case["kind"] == "sampled" and case["seed"] % 3 == 0
+            mix_workers = case["kind"] == "sampled" and case_bits(case, "mix") % 3 == 0
             try:
                 for op in case["ops"]:
                     kind = op[0]
